@@ -39,6 +39,8 @@ func C16(e *Env) {
 	r.Rule("R16.8", "link 8: Active has exactly these two call sites and the active field is written only by Active and the constructor (initially true); no other getter exposes a switchable step", 3)
 	r.Rule("R16.9", "link 9: the output validators, BuildDependencyGraph and AllArgs do not write through their argument (slices of the Output are shared), so the generated file cannot depend on which validators ran", 6)
 
+	c10Amalgamated(e, "R10.4")
+	r.Rule("R10.4", "every other diagnostic is reported unchanged: the amalgamated validation step runs every sub-step and joins all their errors, so switching one validator off neither hides nor uncovers the diagnostics of the others (shared with C10)", 3)
 	c16Flags(e)
 	c16Wiring(e)
 	c16Validators(e)
